@@ -102,9 +102,48 @@ func corrExtra(id *int, r *hx.Rng, n int) {
 		fmt.Fprintf(out, "L\t%d\t%s\t%s\n", *id, hs(l), elngObs(l))
 		*id++
 	}
+	corrStpp(id, r, n)
 	for i := 0; i < n; i++ {
 		l := string(r.Bytes(r.Intn(12), []byte("abenUS-\x00zH419")))
 		fmt.Fprintf(out, "L\t%d\t%s\t%s\n", *id, hs(l), elngObs(l))
+		*id++
+	}
+}
+
+// stppObs: NewStppBox encoded and decoded again: dref/namespace/schema/mime/Size() or ERR.
+func stppObs(a, b, c string) (obs string) {
+	defer func() {
+		if r := recover(); r != nil {
+			obs = "PANIC"
+		}
+	}()
+	var buf bytes.Buffer
+	if err := mp4.NewStppBox(a, b, c).Encode(&buf); err != nil {
+		return "ENCERR"
+	}
+	bx, err := mp4.DecodeBox(0, bytes.NewReader(buf.Bytes()))
+	if err != nil {
+		return "ERR"
+	}
+	e := bx.(*mp4.StppBox)
+	return fmt.Sprintf("%d/%s/%s/%s/%d", e.DataReferenceIndex, hs(e.Namespace), hs(e.SchemaLocation), hs(e.AuxiliaryMimeTypes), e.Size())
+}
+
+func corrStpp(id *int, r *hx.Rng, n int) {
+	pool := []string{"", "a", "http://www.w3.org/ns/ttml", "http://www.w3.org/ns/ttml http://www.w3.org/ns/ttml#styling", "image/png", "x y z"}
+	for _, a := range pool {
+		for _, b := range pool {
+			for _, c := range pool {
+				fmt.Fprintf(out, "P\t%d\t%s\t%s\t%s\t%s\n", *id, hs(a), hs(b), hs(c), stppObs(a, b, c))
+				*id++
+			}
+		}
+	}
+	for i := 0; i < n; i++ {
+		a := string(r.Bytes(r.Intn(10), []byte("abc:/ .#")))
+		b := string(r.Bytes(r.Intn(6), []byte("abc:/ .#")))
+		c := string(r.Bytes(r.Intn(6), []byte("abc:/ .#")))
+		fmt.Fprintf(out, "P\t%d\t%s\t%s\t%s\t%s\n", *id, hs(a), hs(b), hs(c), stppObs(a, b, c))
 		*id++
 	}
 }
